@@ -55,13 +55,21 @@ def setup(ctx):
     return {}
 
 
+def abs_layer(layer):
+    import jax
+    import jax.numpy as jnp
+    import equinox as eqx
+
+    return jax.tree_util.tree_map(lambda v: jnp.abs(v) if eqx.is_inexact_array(v) else v, layer)
+
+
 def run(case, ctx):
     import contextlib
     import io
 
     rng = rng_for(ctx["seed"], ID, case["i"])
     D, grp = case["D"], case["group"]
-    cfg = mlgen.gen_layer_cfg(rng, D, group=grp, equal_channels=(case["i"] % 4 == 1))
+    cfg = mlgen.gen_layer_cfg(rng, D, group=grp, equal_channels=(case["i"] % 4 == 1), stratum=case["i"])
     if grp != "B":
         cfg["M"] = 3 if cfg["M"] == 5 else cfg["M"]
     key = {k: cfg[k] for k in ("D", "M", "in_sig", "out_sig", "drop", "bias", "padding", "lhs", "rhs", "torus", "sp")}
@@ -96,6 +104,9 @@ def run(case, ctx):
                 Y = probes.blocks(y)
                 nontrivial = any(np.any(v != 0) for v in Y.values())
                 S = mlgen.trace_scale(x, y)
+                # conditioning of the layer's sum (see C11): the same layer with the magnitudes of all weights, biases and
+                # filters applied to |x| bounds the sum of |terms|; rounding noise is a few eps32 of that whatever cancels
+                S = max(S, 2.0 * mlgen.trace_scale(abs_layer(layer)(mlgen.abs_mi(x))))
                 worst, wg, wmsg = 0.0, None, None
                 for g in Gp:
                     gx = mlgen.act_mi(x, g)
